@@ -210,8 +210,8 @@ def _check_encoding(ctx, fit, fh):
             ctx.require(len(subs) >= 1, f"{func.qual}: labels given to fit "
                         f"are not a masked selection: {show(yt, 100)}")
             ysub = subs[0]
-            same_mask = show(ysub[2], 400) == show(mask_x, 400)
-            same_lab = show(strip_conv(ysub[1]), 400) == show(lab, 400)
+            same_mask = (ysub[2]) == (mask_x)
+            same_lab = (strip_conv(ysub[1])) == (lab)
             if not ctx.check(same_mask and same_lab, "C12b-same-mask", func,
                       "rows and labels are selected by the same mask of the "
                       "same label vector",
@@ -225,8 +225,7 @@ def _check_encoding(ctx, fit, fh):
                 def atoms(t, L=L):
                     if t == lab:
                         return L
-                    if t[0] == "sub" and show(t[2], 400) == show(
-                            mask_x, 400):
+                    if t[0] == "sub" and (t[2]) == (mask_x):
                         return atoms_inner(t[1], L)
                     raise KeyError
 
